@@ -68,6 +68,7 @@ fn main() {
     let mut only: Option<String> = None;
     let mut n_random: Option<usize> = None;
     let mut steps: Option<usize> = None;
+    let mut pipe: Option<String> = None;
     let mut i = 1;
     while i < args.len() {
         match args[i].as_str() {
@@ -97,6 +98,10 @@ fn main() {
             }
             "--steps" => {
                 steps = Some(args[i + 1].parse().expect("steps"));
+                i += 1
+            }
+            "--pipe" => {
+                pipe = Some(args[i + 1].clone());
                 i += 1
             }
             a => panic!("unknown argument {a}"),
@@ -140,20 +145,48 @@ fn main() {
         let mine: Vec<(String, usize)> = items.iter().enumerate().filter(|(i, _)| i % jobs == j).map(|(_, x)| x.clone()).collect();
         let path = format!("{}/trace_{:02}.txt", out, j);
         let p = Params { thorough: p.thorough, seed: p.seed, steps: p.steps };
+        let pipe = pipe.clone();
         handles.push(
             std::thread::Builder::new()
                 .stack_size(256 << 20)
                 .spawn(move || {
                     install_quiet_panic_hook();
-                    let f = File::create(&path).expect("create trace file");
-                    let mut w = BufWriter::with_capacity(1 << 20, f);
                     let mut total = Stats::default();
-                    for (fam, idx) in mine {
-                        if let Some(st) = run_item(&fam, idx, &p, &mut w) {
-                            total.merge(&st);
+                    match &pipe {
+                        None => {
+                            let f = File::create(&path).expect("create trace file");
+                            let mut w = BufWriter::with_capacity(1 << 20, f);
+                            for (fam, idx) in mine {
+                                if let Some(st) = run_item(&fam, idx, &p, &mut w) {
+                                    total.merge(&st);
+                                }
+                            }
+                            w.flush().unwrap();
+                        }
+                        Some(model) => {
+                            // stream straight into the model driver: nothing but its answers touch the disk
+                            let ans = File::create(format!("{}.ans", path)).expect("create answer file");
+                            let mut child = std::process::Command::new(model)
+                                .stdin(std::process::Stdio::piped())
+                                .stdout(ans)
+                                .spawn()
+                                .expect("spawn model driver");
+                            {
+                                let stdin = child.stdin.take().expect("driver stdin");
+                                let mut w = BufWriter::with_capacity(1 << 20, stdin);
+                                for (fam, idx) in mine {
+                                    if let Some(st) = run_item(&fam, idx, &p, &mut w) {
+                                        total.merge(&st);
+                                    }
+                                }
+                                w.flush().expect("flush to driver");
+                            }
+                            let status = child.wait().expect("wait for driver");
+                            if !status.success() {
+                                panic!("model driver failed on {}", path);
+                            }
                         }
                     }
-                    w.flush().unwrap();
                     total
                 })
                 .unwrap(),
